@@ -18,7 +18,7 @@ from pyvc.interp import Spec, PyRaise, INLINE
 from pyvc.values import Obj, PyList, PySet, Builtin, Opaque, SymStream, GenObj, SBool
 from pyvc.ops import make_dict
 from pyvc.repo import ClassInfo
-from .lib import UserVal, install_user_hooks, user_effects
+from .lib import UserVal, install_user_hooks, user_effects, AnySeq
 
 PROPERTY = "C10"
 SYM = "krrood.entity_query_language.symbolic"
@@ -197,37 +197,6 @@ def h_evaluation_discipline():
                 ok, why = ("materialis" not in str(e)), str(e)
             ctx.check(f"evaluation::{n.split('[')[0].replace('cover-', '').replace('value-', '')}-consumes-its-children-lazily", z3.BoolVal(ok), detail=why)
     return Harness("evaluation-discipline", run, spec=Spec(), max_paths=3000, ematching_only=True, timeout_ms=3000, retry_unknown=False)
-
-
-class AnySeq(Opaque):
-    """a local container after a loop havoc: membership / content unknown, writes absorbed; iterating it gives an abstract
-    stream of (at least possibly one) arbitrary members -- what a collect-then-yield rewrite of an operator would iterate"""
-
-    def __init__(self, name, member):
-        super().__init__("anyseq:" + name)
-        self.name, self.member = name, member
-
-    def m_getattr(self, vm, name):
-        if name in ("append", "add", "extend", "update", "clear", "remove", "discard", "insert", "setdefault", "pop"):
-            return Builtin("anyseq." + name, lambda it, fr, a, k: None)
-        if name in ("values", "items", "keys", "copy"):
-            return Builtin("anyseq." + name, lambda it, fr, a, k: self)
-        vm.raise_("AttributeError", name)
-
-    def m_iter(self, vm):
-        return SymStream(f"held-back-{self.name}", lambda it, i: self.member(it), length=vm.ctx.fresh_int("n_held"))
-
-    def m_contains(self, vm, k):
-        return SBool(vm.ctx.fresh_bool("in_held"))
-
-    def m_truth(self, vm):
-        return SBool(vm.ctx.fresh_bool("held_nonempty"))
-
-    def m_setitem(self, vm, k, v):
-        return None
-
-    def m_getitem(self, vm, k):
-        return self.member(vm)
 
 
 def h_streaming_exists():
